@@ -36,8 +36,10 @@ def runner(prog: Prog) -> Runner:
     # lazy decorator: module-level function whose inner function tests a flag on args[0]/self and calls a method
     lazy = wrapper = None
     flag = evname = None
+    # (the decorators may live in any module of the package; what identifies them is their shape and that runner methods carry them)
+    deco_names = {d.split(".")[-1] for m in cls.methods.values() for d in m.decorators}
     for f in prog.funcs.values():
-        if f.mod is cls.mod and f.parent is not None and f.parent.cls is None and f.parent.parent is None:
+        if f.parent is not None and f.parent.cls is None and f.parent.parent is None and (f.mod is cls.mod or f.parent.name in deco_names):
             tests = [n for n in ast.walk(f.node) if isinstance(n, ast.If)]
             for t in tests:
                 attrs = [a for a in ast.walk(t.test) if isinstance(a, ast.Attribute)]
@@ -45,7 +47,7 @@ def runner(prog: Prog) -> Runner:
                 if attrs and calls:
                     lazy, wrapper, flag, evname = f.parent, f, attrs[0].attr, calls[0].func.attr
     if lazy is None:
-        raise AnalysisError("lazy-evaluation decorator not found in sqllineage.runner")
+        raise AnalysisError("lazy-evaluation decorator of the runner's accessors not found")
     ev = cls.methods.get(evname)
     if ev is None:
         raise AnalysisError(f"evaluator {evname} not found on LineageRunner")
@@ -53,7 +55,7 @@ def runner(prog: Prog) -> Runner:
     lazy_names = {lazy.name}
     # decorators defined in terms of the lazy one (lazy_property = property(lazy_method(func)))
     for f in prog.funcs.values():
-        if f.mod is cls.mod and f.cls is None and f.parent is None and f is not lazy:
+        if f.mod is lazy.mod and f.cls is None and f.parent is None and f is not lazy:
             if any(isinstance(c, ast.Call) and isinstance(c.func, ast.Name) and c.func.id == lazy.name for c in ast.walk(f.node)):
                 lazy_names.add(f.name)
     for m in cls.methods.values():
@@ -134,3 +136,22 @@ def import_rules(ctx: Ctx, pid: str, mapping: dict[str, str]) -> None:
         if o.rule in mapping:
             ctx.obligations.append(replace(o, rule=mapping[o.rule]))
     ctx.analysed_functions |= touched
+
+
+def strips_comments(prog: Prog, fn: Fn, call: ast.AST, _depth: int = 0) -> bool:
+    """`call` removes the comments from SQL text: sqlparse.format(..., strip_comments=True), directly or through a package function that
+    returns the result of such a call (the repository's comment trimmer, whatever it is called)."""
+    if not isinstance(call, ast.Call):
+        return False
+    if any(kw.arg == "strip_comments" and isinstance(kw.value, ast.Constant) and kw.value.value is True for kw in call.keywords):
+        return True
+    if isinstance(call.func, ast.Name) and call.func.id == "str" and len(call.args) == 1:
+        return strips_comments(prog, fn, call.args[0], _depth)
+    if _depth > 2:
+        return False
+    for cal in prog.resolve_call(call, fn):
+        if isinstance(cal, Fn):
+            for r in prog.walk_fn(cal):
+                if isinstance(r, ast.Return) and r.value is not None and any(strips_comments(prog, cal, v, _depth + 1) for v in prog.value_sources(cal, r.value)):
+                    return True
+    return False
